@@ -395,6 +395,12 @@ def instances(tier, seed):
         "ra*X0+rb*Y0": ["sum", [[_ops(X0), "r5"], [_ops(Y0), "r6"]]],
         "rc*Z0+2.0": ["sum", [[_ops(Z0), "r7"], [_ops(C), 2.0]]],
         "rthree": ["sum", [[_ops(X0Y1), "r5"], [_ops(Z1), 0.5], [_ops(C), "r6"]]],
+        # strings that overlap on a qubit with the SAME letter / with different letters / on two qubits: the products
+        # commute or anticommute depending on the number of qubits carrying DIFFERENT letters
+        "overlapZ": ["sum", [[_ops({0: "Z", 1: "Z"}), "r5"], [_ops({1: "Z", 2: "Z"}), "r6"]]],
+        "overlapXZ": ["sum", [[_ops({0: "X", 1: "Z"}), "r5"], [_ops({0: "X", 1: "X"}), "r6"]]],
+        "overlap2": ["sum", [[_ops({0: "X", 1: "Y"}), "r5"], [_ops({0: "Y", 1: "X"}), "r6"], [_ops({1: "Y", 2: "Z"}), 0.5]]],
+        "overlap3": ["sum", [[_ops({0: "X", 1: "Y", 2: "Z"}), "r5"], [_ops({0: "X", 1: "Z", 2: "Y"}), "r6"], [_ops({0: "Z"}), "r7"]]],
     }
     operands.update(RS0)
     for a in operands:
